@@ -148,12 +148,19 @@ class Env:
             "list_id": id(prg),
             "ids": [id(s) for s in prg],
             "strs": [str(s) for s in prg],
-            "deep": hashlib.sha256(repr([self.dump(s) for s in prg]).encode()).hexdigest(),
+            "deep": self._deep(prg),
             "ip": [(p.name, p.arity) for p in ip],
             "op": [(p.name, p.arity) for p in op],
             "ip_id": id(ip),
             "op_id": id(op),
         }
+
+    def _deep(self, prg):
+        try:
+            return hashlib.sha256(repr([self.dump(s) for s in prg]).encode()).hexdigest()
+        except RecursionError:
+            # a term nested deeper than the harness itself can walk: fall back to str() only (said in the event)
+            return "unavailable"
 
     @staticmethod
     def fp_diff(a: dict, b: dict):
